@@ -103,6 +103,17 @@ fn run_session(dict: &JapaneseDictionary, s: &Value) -> Vec<Value> {
     };
     let mut tok = StatefulTokenizer::new(dict, mode);
     tok.set_subset(subset_of(&fields) | required);
+    // StatefulTokenizer::set_mode (what the binding calls for a per-call override and to restore the default) ADDS the
+    // split field of the mode to the loaded subset and never removes it.  Which of the split lists that were NOT requested
+    // are loaded therefore grows with the overrides seen so far; Morpheme.split in such a mode observes it.  Nothing is
+    // promised about fields that were not requested (C11), so the mirror loads the same extra fields as the core does for
+    // the binding's call sequence; the mode itself still never outlives the call (fresh tokenizer per override).
+    let split_field = |m: Mode| match m {
+        Mode::A => InfoSubset::SPLIT_A,
+        Mode::B => InfoSubset::SPLIT_B,
+        _ => InfoSubset::empty(),
+    };
+    let mut extra = split_field(mode);
     let mut last: Option<MorphemeList<&JapaneseDictionary>> = None;
     let mut obs = vec![];
     for op in s["ops"].as_array().unwrap() {
@@ -110,8 +121,13 @@ fn run_session(dict: &JapaneseDictionary, s: &Value) -> Vec<Value> {
             match op["op"].as_str().unwrap() {
                 "tokenize" => {
                     // a per-call mode override never outlives the call; every call yields a list of its own content
-                    let mut t2 = StatefulTokenizer::new(dict, op["mode"].as_str().map(mode_of).unwrap_or(mode));
-                    t2.set_subset(subset_of(&fields) | required);
+                    let call_mode = op["mode"].as_str().map(mode_of).unwrap_or(mode);
+                    if !op["mode"].is_null() {
+                        extra |= split_field(call_mode);
+                    }
+                    tok.set_subset(subset_of(&fields) | required | extra);
+                    let mut t2 = StatefulTokenizer::new(dict, call_mode);
+                    t2.set_subset(subset_of(&fields) | required | extra);
                     if op["mode"].is_null() {
                         // same tokenizer object when no override is given (history must not matter: C10)
                         tok.reset().push_str(op["text"].as_str().unwrap());
